@@ -42,6 +42,8 @@ type Type struct {
 	Key    *Type
 	N      int
 	Fields []Field
+	// Methods: Go source of the methods declared on a Named type (printed after its declaration)
+	Methods string
 }
 
 func B(s string) *Type              { return &Type{K: KBasic, Basic: s} }
@@ -254,6 +256,8 @@ type Catalogue struct {
 	NInt, NStr, NBool, NF64, NU8, NC128 *Type
 	S0, SP, Rec, MA, SE, NSl, NMap, NArr, NPtr *Type
 	E1, E2, E3                                  *Type
+	ME, MP                                      *Type // named structs with user Equal/Compare methods (Go/Methods.v)
+	WithMethods                                 bool
 	All                                         []*Type
 }
 
@@ -283,12 +287,29 @@ func NewCatalogue() *Catalogue {
 	c.E1 = Named(30, "E1", 1, StP([]bool{false, true, false, true}, B("int"), B("string"), P(B("int")), Sl(B("int"))))
 	c.E2 = Named(31, "E2", 2, StP([]bool{false, true}, B("string"), B("float64")))
 	c.E3 = Named(32, "E3", 1, St(B("int"), B("bool")))
+	// ids 100..199: value receiver/parameter; 200..299: pointer receiver/parameter (Go/Methods.v);
+	// the methods look at the first field only
+	c.ME = Named(100, "ME", 0, St(B("int"), B("string")))
+	c.ME.Methods = "func (a ME) Equal(b ME) bool { return a.F0 == b.F0 }\n\n" +
+		"func (a ME) Compare(b ME) int {\n\tif a.F0 < b.F0 {\n\t\treturn -1\n\t}\n\tif a.F0 > b.F0 {\n\t\treturn 1\n\t}\n\treturn 0\n}\n\n"
+	c.MP = Named(200, "MP", 0, St(B("string"), Sl(B("int"))))
+	c.MP.Methods = "func (a *MP) Equal(b *MP) bool {\n\tif a == nil || b == nil {\n\t\treturn a == nil && b == nil\n\t}\n\treturn a.F0 == b.F0\n}\n\n" +
+		"func (a *MP) Compare(b *MP) int {\n\tif a == nil {\n\t\tif b == nil {\n\t\t\treturn 0\n\t\t}\n\t\treturn -1\n\t}\n\tif b == nil {\n\t\treturn 1\n\t}\n" +
+		"\tif a.F0 < b.F0 {\n\t\treturn -1\n\t}\n\tif a.F0 > b.F0 {\n\t\treturn 1\n\t}\n\treturn 0\n}\n\n"
 	c.All = []*Type{c.NInt, c.NStr, c.NBool, c.NF64, c.NU8, c.NC128, c.S0, c.SP, c.Rec, c.MA, c.SE, c.NSl, c.NMap, c.NArr, c.NPtr, c.E1, c.E2, c.E3}
 	return c
 }
 
 // Leaves: the depth-0 types shapes are built from.
 func (c *Catalogue) Leaves() []*Type {
+	l := c.leaves()
+	if c.WithMethods {
+		l = append(l, c.ME, c.MP)
+	}
+	return l
+}
+
+func (c *Catalogue) leaves() []*Type {
 	return []*Type{B("bool"), B("int"), B("int8"), B("uint8"), B("int32"), B("uint64"), B("float32"), B("float64"),
 		B("complex64"), B("complex128"), B("string"),
 		c.NInt, c.NStr, c.NBool, c.NF64, c.NU8, c.S0, c.SP, c.Rec, c.MA, c.SE, c.NSl, c.NMap, c.NArr, c.NPtr, c.E1, c.E2, c.E3}
@@ -386,7 +407,7 @@ func DeclSource(decls map[int]*Type, pkg int) string {
 	var b strings.Builder
 	for _, id := range ids {
 		d := decls[id]
-		fmt.Fprintf(&b, "type %s %s\n\n", d.Name, d.Elem.goDecl(pkg))
+		fmt.Fprintf(&b, "type %s %s\n\n%s", d.Name, d.Elem.goDecl(pkg), d.Methods)
 	}
 	return b.String()
 }
